@@ -299,6 +299,65 @@ def _loop_indexes(f, lp, ctext):
     return False
 
 
+def _d2b(chk, fb, fns):
+    """after R.erase(R.begin() + E, R.end()) the string has E characters: a later R.begin() + B needs B <= E"""
+    n = 0
+    for f in fns:
+        cfg = f.cfg
+        truncs = []
+        for c in f.calls():
+            if c["callee"]["name"] == "erase" and "basic_string" in c["callee"].get("cls", "") and len(f.args(c)) == 2:
+                a0, a1 = render(f.args(c)[0]), render(f.args(c)[1])
+                R = render(f.obj(c))
+                m = re.match(r"\(%s\.begin\(\) \+ (\w+)\)$" % re.escape(R), a0)
+                if m and a1 == R + ".end()":
+                    truncs.append((c, R, m.group(1)))
+        for tc, R, E in truncs:
+            for c in f.calls():
+                if c is tc or "obj" not in c or render(f.obj(c)) != R or not e1.before_in_function(cfg, tc, c) or not cfg.dominates(cfg.stmt_block(tc), cfg.stmt_block(c)):
+                    continue
+                for a in f.args(c):
+                    m = re.match(r"\(%s\.begin\(\) \+ (\w+)\)$" % re.escape(R), render(a))
+                    if not m or m.group(1) == E:
+                        continue
+                    B = m.group(1)
+                    n += 1
+
+                    def est(facts, B=B, E=E):
+                        for t, tr, nd in facts:
+                            if t in ("(%s > %s)" % (B, E), "(%s < %s)" % (E, B)) and tr is False:
+                                return True
+                            if t in ("(%s <= %s)" % (B, E), "(%s >= %s)" % (E, B)) and tr is True:
+                                return True
+                        return False
+                    ok, path = e1.guarded_by(cfg, cfg.stmt_block(c), est)
+                    if ok:
+                        chk.proved("D2", f.key, "offset-in-truncated:%s+%s" % (R, B), f.loc(c), "%s <= %s established before %s.begin() + %s on the string truncated to %s characters" % (B, E, R, B, E))
+                    else:
+                        chk.refuted("D2", f.key, "offset-in-truncated:%s+%s" % (R, B), f.loc(c),
+                                    "'%s' was truncated to %s characters (erase(begin()+%s, end())) and is then addressed at begin() + %s with no guard that %s <= %s: the iterator lies beyond end()" % (R, E, E, B, B, E),
+                                    witness={"input": "text where position '%s' lies after position '%s' (e.g. the last '.' before the last directory separator)" % (B, E)})
+    # cursor-aware erase in the tokenizers: erasing tokens must not go below the read cursor without moving it
+    for cls in ("bpp::StringTokenizer",):
+        c = fb.need_class(cls)
+        for m in c["methods"]:
+            f = fb.fns.get(m["key"])
+            if f is None or f.body is None or f.rec.get("ctor") or f.rec.get("dtor"):
+                continue
+            er = [x for x in f.calls() if x["callee"]["name"] in ("erase", "pop_front", "clear") and "obj" in x and render(f.obj(x)) == "tokens_"]
+            if not er:
+                continue
+            n += 1
+            reads_cursor = any(x["k"] == "MemberExpr" and x["member"]["name"] == "currentPosition_" for x in f.all_nodes())
+            if reads_cursor:
+                chk.proved("D2", f.key, "cursor-aware-erase", f.loc(er[0]), "tokens are erased relative to currentPosition_")
+            else:
+                chk.refuted("D2", f.key, "cursor-aware-erase", f.loc(er[0]),
+                            "tokens_ is shortened without looking at or moving currentPosition_: after some tokens were consumed the cursor can point past the end (numberOfRemainingTokens() wraps, nextToken() reads out of range)",
+                            witness={"history": "consume a few tokens, then call %s()" % f.name})
+    chk.floor("D2", "truncation/cursor sites", n, 2)
+
+
 def _d3(chk, fb, fns):
     eff = e1.Effects(fb)
     nl = 0
@@ -321,11 +380,19 @@ def _d3(chk, fb, fns):
             for b in body:
                 for el in cfg.blocks[b]["el"]:
                     n = f.nodes.get(el)
-                    if n is None or n["k"] not in ("BinaryOperator", "CompoundAssignOperator") or n["op"] not in ("=", "+="):
+                    if n is None:
                         continue
-                    l = strip(kids(n)[0])
-                    r = strip(kids(n)[1])
-                    if l["k"] != "DeclRefExpr":
+                    if is_call(n) and n["callee"]["name"] == "operator=" and "obj" in n and f.args(n):
+                        # class-type assignment (iterators): same shape as the builtin one
+                        l = strip(f.obj(n))
+                        r = strip(f.args(n)[0])
+                        n = dict(n, op="=")
+                    elif n["k"] in ("BinaryOperator", "CompoundAssignOperator") and n["op"] in ("=", "+="):
+                        l = strip(kids(n)[0])
+                        r = strip(kids(n)[1])
+                    else:
+                        continue
+                    if l is None or l["k"] != "DeclRefExpr":
                         continue
                     stride = None
                     base = None
@@ -335,6 +402,23 @@ def _d3(chk, fb, fns):
                                 stride, base = v, u
                     elif n["op"] == "+=" and is_call(r) and r["callee"]["name"] in ("size", "length"):
                         stride, base = r, l
+                    if stride is None and n["op"] == "=":
+                        # X = search(X + S.size(), ..., S.begin(), S.end())   /   X = T.find(S, X + S.size())
+                        if is_call(r) and r["callee"]["name"] in ("search", "find") and f.args(r):
+                            for sumn in walk(r):
+                                if sumn["k"] == "BinaryOperator" and sumn["op"] == "+" or (is_call(sumn) and sumn.get("op") == "+"):
+                                    ops = kids(sumn) if sumn["k"] == "BinaryOperator" else [x for x in [f.nodes.get(i) for i in ([sumn.get("obj")] if "obj" in sumn else []) + sumn.get("args", [])] if x is not None]
+                                    if len(ops) != 2:
+                                        continue
+                                    for u, v in ((strip(ops[0]), ops[1]), (strip(ops[1]), ops[0])):
+                                        vv = strip(v)
+                                        while vv is not None and vv["k"] in ("CXXStaticCastExpr", "CStyleCastExpr", "CXXFunctionalCastExpr") and kids(vv):
+                                            vv = strip(kids(vv)[0])
+                                        if u["k"] == "DeclRefExpr" and u["decl"]["id"] == l["decl"]["id"] and is_call(vv) and vv["callee"]["name"] in ("size", "length"):
+                                            needle = render(f.obj(vv))
+                                            if any(render(a).startswith(needle + ".begin()") or render(a) == needle for a in f.args(r)):
+                                                stride, base = vv, l
+                    direct_search = stride is not None and n["op"] == "=" and is_call(r)
                     if stride is None:
                         continue
                     S = f.obj(stride)
@@ -342,9 +426,9 @@ def _d3(chk, fb, fns):
                         continue
                     stext = render(S)
                     # base must come from a find of S starting at the loop variable (or be the loop variable itself)
-                    from_find = False
+                    from_find = direct_search
                     if base["decl"]["id"] == l["decl"]["id"]:
-                        from_find = n["op"] == "+="
+                        from_find = from_find or n["op"] == "+="
                     for d in f.all_nodes():
                         init = None
                         if d["k"] == "DeclStmt":
@@ -481,6 +565,7 @@ def run(chk, fb, tier):
     chk.floor("D1", "functions in the anchored units", len(fns), 150)
     _d1(chk, fb, fns)
     _d2(chk, fb, fns)
+    _d2b(chk, fb, fns)
     _d3(chk, fb, fns)
     _d4(chk, fb, fns)
     _d5(chk, fb, fns)
